@@ -5,6 +5,7 @@ import (
 	"fmt"
 	"math/big"
 
+	"github.com/ethereum/go-ethereum/accounts/abi"
 	"github.com/ethereum/go-ethereum/common"
 	ethtypes "github.com/ethereum/go-ethereum/core/types"
 	ethcrypto "github.com/ethereum/go-ethereum/crypto"
@@ -62,7 +63,7 @@ func (s *scn) applyEth(st CStep) {
 	value, gas, price := big.NewInt(1000), uint64(21000), big.NewInt(1)
 	var data []byte
 	shape := []string{"transfer", "transfer", "no-value", "wrong-nonce", "low-gas", "huge-gas", "value-over-balance", "create-junk", "call-contract-junk", "zero-price", "huge-price",
-		"deploy-storage", "store-zero", "store-nonzero", "store-nonzero", "store-zero"}[st.N%16]
+		"deploy-storage", "store-zero", "store-nonzero", "store-nonzero", "store-zero", "interchain", "interchain"}[st.N%18]
 	switch shape {
 	case "deploy-storage":
 		// a contract with one storage slot: the constructor stores 5 in slot 0, every call stores its argument there
@@ -80,6 +81,31 @@ func (s *scn) applyEth(st CStep) {
 		data = make([]byte, 32)
 		if shape == "store-nonzero" {
 			data[31] = byte(1 + st.B%200)
+		}
+	case "interchain":
+		// a call of the interchain pre-compile (0x…c8): "send an interchain request to the service <destination>"; its
+		// log is handed to the inter-broker contract on the executor's own goroutine. Destinations: registered services,
+		// and well-formed or half-formed ids that name nothing (the hub itself as a chain, empty parts, a truncated address)
+		c := common.HexToAddress("0x00000000000000000000000000000000000000c8")
+		toP, gas, value = &c, 1000000, new(big.Int)
+		hub := fmt.Sprint(s.cfg.World.ChainID)
+		dsts := []string{hub + ":" + hub + ":mychannel&transfer", hub + ":" + hub + ":", hub + ":" + hub + ":0x1234", "7:7:", "", "a:b", hub + ":" + hub + ":" + k.Addr.String(), ":::"}
+		for _, ch := range s.chains {
+			for _, sv := range ch.services {
+				dsts = append(dsts, sv.full(s.cfg.World.ChainID))
+			}
+		}
+		strT, err := abi.NewType("string", "", nil)
+		if err != nil {
+			return
+		}
+		data, err = abi.Arguments{{Type: strT}, {Type: strT}, {Type: strT}, {Type: strT}, {Type: strT}}.Pack(
+			dsts[st.B%len(dsts)], "interchainCharge,interchainConfirm,interchainRollback", "Alice,Bob,10", "Alice,10", "Alice,10")
+		if err != nil {
+			return
+		}
+		if st.B%7 == 6 {
+			data = data[:len(data)/2] // not ABI-valid
 		}
 	case "no-value":
 		value = new(big.Int)
